@@ -239,6 +239,29 @@ func (u *oUnit) emitStructs() string {
 	for _, k := range oSortedKeys(u.Sums) {
 		emitSum(k)
 	}
+	for _, key := range oSortedKeys(u.Accessors) {
+		// `I.M()` = the pointer field f of whichever implementation: reader and writer of that field on the closed interface
+		f := u.Accessors[key]
+		parts := strings.SplitN(key, ".", 2)
+		sum := u.Sums[parts[0]]
+		lean := u.sumLean(parts[0])
+		ft := u.ti(oCheckAccessor(u, key, f))
+		vars := strings.Join(strings.Fields(lean)[1:], " ")
+		if vars != "" {
+			vars = "{" + vars + " : Type} "
+		}
+		fmt.Fprintf(&b, "/-- `%s()`: the field `%s` of whichever implementation (every implementation is `return recv.%s`); the nil interface has none -/\n", key, f, f)
+		fmt.Fprintf(&b, "def %s.%s_ %s: %s → %s\n  | .nil => %s\n", sum.Lean, f, vars, lean, ft.Lean, ft.Zero)
+		for _, im := range sum.Impls {
+			fmt.Fprintf(&b, "  | .%s o => o.%s\n", im.Ctor, f)
+		}
+		fmt.Fprintf(&b, "\n/-- a write through the pointer `%s()` returned: the field `%s` of whichever implementation -/\n", key, f)
+		fmt.Fprintf(&b, "def %s.with_%s_ %s: %s → %s → %s\n  | .nil, _ => .nil\n", sum.Lean, f, vars, lean, ft.Lean, lean)
+		for _, im := range sum.Impls {
+			fmt.Fprintf(&b, "  | .%s o, v => .%s { o with %s := v }\n", im.Ctor, im.Ctor, f)
+		}
+		b.WriteString("\n")
+	}
 	return b.String()
 }
 
@@ -267,6 +290,11 @@ func writeObjUnit(u *oUnit, out string) (nfailed int) {
 			}
 		}()
 		structs = u.emitStructs()
+		for i := range u.Targets {
+			if t := &u.Targets[i]; t.Rec {
+				oShapes[t.Func] = oRecShape(u, t)
+			}
+		}
 		for i := range u.Targets {
 			t := &u.Targets[i]
 			text, reason := oTranslate(u, t, &dead)
